@@ -65,3 +65,29 @@ async fn vf_checkpoint_store() {
     }
     println!("VF-SUMMARY test=checkpoint_store checked={} nontrivial={} bad={}", checked, checked, bad);
 }
+
+// C09: a configuration whose dependency relation has a cycle is rejected by `analyze --target-groups` with the graph-cycle error -
+// whatever the checkpoint says: also when a checkpoint exists and nothing at all has changed since (real git repository).
+#[tokio::test]
+async fn vf_cyclic_configuration_with_checkpoint() {
+    let (mut checked, mut bad) = (0u64, 0u64);
+    let g = |dir: &std::path::Path, args: &[&str]| { let o = std::process::Command::new("git").current_dir(dir).args(args).env("GIT_CONFIG_GLOBAL", "/dev/null").env("GIT_CONFIG_SYSTEM", "/dev/null").output().expect("git"); assert!(o.status.success(), "git {:?}", args); };
+    for (what, dirty) in [("nothing changed since the checkpoint", false), ("one file changed since the checkpoint", true)] {
+        checked += 1;
+        let td = crate::core::testing::new_testdir().unwrap();
+        let wp = td.path();
+        for d in ["x", "y"] { std::fs::create_dir_all(wp.join(d)).unwrap(); std::fs::write(wp.join(d).join("f"), b"x").unwrap(); }
+        std::fs::write(wp.join(".gitignore"), "monorail-out/\n").unwrap();
+        g(wp, &["init", "-q", "."]); g(wp, &["config", "user.email", "a@b"]); g(wp, &["config", "user.name", "n"]); g(wp, &["add", "-A"]); g(wp, &["commit", "-q", "-m", "c1"]);
+        let cfg: core::Config = serde_json::from_str(r#"{"targets":[{"path":"x","uses":["y"]},{"path":"y","uses":["x"]}]}"#).unwrap();
+        let up = crate::app::checkpoint::handle_checkpoint_update(&cfg, &crate::app::checkpoint::CheckpointUpdateInput { id: None, pending: false, git_opts: Default::default() }, wp).await;
+        if let Err(e) = up { bad += 1; println!("VF-FAIL cyclic configuration, {} :: `checkpoint update` failed in the set-up: {} (C09)", what, e); continue; }
+        if dirty { std::fs::write(wp.join("x/f"), b"changed").unwrap(); }
+        let input = HandleAnalyzeInput { git_opts: Default::default(), analyze_input: AnalyzeInput::new(false, false, true) };
+        match handle_analyze(&cfg, &input, wp).await {
+            Ok(o) => { bad += 1; println!("VF-FAIL cyclic configuration (x uses y, y uses x) with a checkpoint, {} :: `analyze --target-groups` succeeds with groups {:?}; it must be rejected with the graph-cycle error (C09)", what, o.target_groups); }
+            Err(e) => { if !e.to_string().to_lowercase().contains("cycle") { bad += 1; println!("VF-FAIL cyclic configuration with a checkpoint, {} :: rejected, but not with the graph-cycle error: {} (C09)", what, e); } }
+        }
+    }
+    println!("VF-SUMMARY test=cyclic_configuration_with_checkpoint checked={} nontrivial={} bad={}", checked, checked, bad);
+}
